@@ -45,7 +45,46 @@ def cases(tier):
             step = 1 if (tier == "thorough" or tcn == "wide") else 3
             for i in range(0, n, step):
                 out.append({"shape": shape, "tc": tcn, "i": i})
+    # the same documents with the keys of every JSON object sorted / reversed (key order carries no meaning): every 4th point
+    for order in ("sorted", "reversed"):
+        for shape in dd.SHAPES:
+            for i in range(0, len(dd.lattice(shape, tier, dd.TC_WIDE)), 1 if tier == "thorough" else 4):
+                out.append({"shape": shape, "tc": "wide", "i": i, "key_order": order})
+    # documents of the 2.0 format (from_2_0_dict): four model types x a small coefficient lattice
+    out += [{"shape": "legacy2", "tc": "legacy2", "i": i} for i in range(len(legacy2_lattice()))]
     return out
+
+
+LEGACY2_TC = {"T_min": -100, "T_max": 200, "T_min_seg": -100, "T_max_seg": 200}  # what from_2_0_params stores
+
+
+def legacy2_lattice():
+    """(2.0 document, the same coefficients in the current stored convention)"""
+    out = []
+    for ic in (0.0, 20.0):
+        out.append(({"model_type": "intercept_only", "model_params": {"intercept": ic}}, dd.coeffs("tidd", intercept=ic)))
+        for beta in (0.5, 2.25):
+            for hbp in (30.0, 55.0, 65.0):
+                out.append(({"model_type": "hdd_only", "model_params": {"intercept": ic, "beta_hdd": beta, "heating_balance_point": hbp}},
+                            dd.coeffs("hdd_tidd", intercept=ic, hdd_bp=hbp, hdd_beta=beta)))
+            for cbp in (65.0, 70.0, 90.0):
+                out.append(({"model_type": "cdd_only", "model_params": {"intercept": ic, "beta_cdd": beta, "cooling_balance_point": cbp}},
+                            dd.coeffs("tidd_cdd", intercept=ic, cdd_bp=cbp, cdd_beta=beta)))
+            for hbp, cbp in ((30.0, 65.0), (55.0, 70.0), (65.0, 65.0), (65.0, 90.0)):
+                for beta2 in (0.5, 2.25):
+                    out.append(({"model_type": "cdd_hdd", "model_params": {"intercept": ic, "beta_hdd": beta, "heating_balance_point": hbp,
+                                                                            "beta_cdd": beta2, "cooling_balance_point": cbp}},
+                                dd.coeffs("hdd_tidd_cdd", intercept=ic, hdd_bp=hbp, hdd_beta=beta, cdd_bp=cbp, cdd_beta=beta2)))
+    return out
+
+
+def reorder(x, how):
+    if isinstance(x, dict):
+        keys = sorted(x) if how == "sorted" else list(reversed(list(x)))
+        return {k: reorder(x[k], how) for k in keys}
+    if isinstance(x, list):
+        return [reorder(v, how) for v in x]
+    return x
 
 
 def temps_for(c, tc, e):
@@ -153,12 +192,21 @@ def check_curve(c, tc, T, pred, heat, cool):
 def run_case(case):
     import opendsm.eemeter as em
 
-    tc = dd.TC_WIDE if case["tc"] == "wide" else dd.TC_NARROW
-    c = dd.lattice(case["shape"], case.get("tier", "quick"), tc)[case["i"]]
-    e = curve.effective(c, tc)
-    T = temps_for(c, tc, e)
-    doc = dd.document({"fw-su_sh_wi": dd.submodel(c, tc)}, _settings())
-    m = em.DailyModel.from_dict(doc)
+    if case["shape"] == "legacy2":
+        tc = LEGACY2_TC
+        doc2, c = legacy2_lattice()[case["i"]]
+        e = curve.effective(c, tc)
+        T = temps_for(c, tc, e)
+        m = em.DailyModel.from_2_0_dict(doc2)
+    else:
+        tc = dd.TC_WIDE if case["tc"] == "wide" else dd.TC_NARROW
+        c = dd.lattice(case["shape"], case.get("tier", "quick"), tc)[case["i"]]
+        e = curve.effective(c, tc)
+        T = temps_for(c, tc, e)
+        doc = dd.document({"fw-su_sh_wi": dd.submodel(c, tc)}, _settings())
+        if case.get("key_order"):
+            doc = reorder(doc, case["key_order"])
+        m = em.DailyModel.from_dict(doc)
     idx = pd.date_range("2019-01-01", periods=len(T), freq="D", tz="UTC")
     r = em.DailyReportingData(pd.DataFrame({"temperature": T}, index=idx), is_electricity_data=True)
     p = m.predict(r)
@@ -172,10 +220,12 @@ def run_case(case):
         s = (c["hdd_k"] or 0) + (c["cdd_k"] or 0)
         fr = "sum>=1" if s >= 1 else "sum<1"
     for clause, detail in got:
-        viol.append({"clause": clause, "key": {"shape": case["shape"], "smoothing": fr},
+        viol.append({"clause": clause, "key": {"shape": c["model_type"] if case["shape"] == "legacy2" else case["shape"], "smoothing": fr,
+                                               **({"document": "2.0"} if case["shape"] == "legacy2" else {}),
+                                               **({"key_order": case["key_order"]} if case.get("key_order") else {})},
                      "detail": f"{detail} | coefficients {c} tc {tc}"})
     pr = p["predicted"].to_numpy(float)
-    beh = [case["shape"], bool(e.get("flat")), round(float(pr.min()), 6), round(float(pr.max()), 6), len(got)]
+    beh = [case["shape"] + ":" + case.get("key_order", ""), bool(e.get("flat")), round(float(pr.min()), 6), round(float(pr.max()), 6), len(got)]
     return {"behaviour": beh, "violations": viol, "stats": {"points": int(len(T))}}
 
 
@@ -187,7 +237,9 @@ def run(tier, seed):
         [ex],
         rule="one case = one model document (shape, lattice point, fitted range) evaluated by predict() on ~830 "
         "temperatures (-60..140F step 0.25 plus every stored/effective balance point, range limit and their float "
-        "neighbours); behaviour = (shape, flat?, min, max of the curve, #clauses failed); every case is non-trivial",
+        "neighbours); plus every 4th (thorough: every) document with its JSON object keys sorted / reversed, and 2.0-format documents "
+        "(from_2_0_dict: four model types x coefficient lattice); behaviour = (shape, flat?, min, max of the curve, #clauses failed); "
+        "every case is non-trivial",
     )
     cov["temperature_points"] = ex.stats.get("points", 0)
     return {"level": LEVEL, "coverage": cov, "violations": ex.violations, "assumptions": ASSUMPTIONS}
